@@ -5,6 +5,8 @@
   measured against ALL labellings (`LT`, `fits`, `changes` of Spec/C12.lean).
 -/
 import Gotree.Lemmas.C12Subdiv
+import Gotree.Lemmas.C12Sites
+import Gotree.Lemmas.C12Fmt
 
 namespace Gotree.C12
 open Gotree
@@ -1227,5 +1229,144 @@ example : plainCol exAln 1 = true ∧ (exTree.tipNames.all fun n => (lookup exAl
 
 example : innerAt exTree [0] = true ∧ (runAlgo 3 exTv .downpass exTree).get [0] = some [0, 1, 0] := by
   decide
+
+/- ## random resolution never changes the step counts (multi-site ASR in lockstep included) -/
+
+/-- ★ random resolution (`randomResolve = true`, any stream of draws, any number of sites) leaves the step counts
+    of ParsimonyAsr untouched: they are those of the deterministic run, hence optimal wherever those are
+    (`asr_optimal_partial`); the two runs also fail on the same inputs. -/
+theorem asr_random_steps (t : T) (m : List (String × String)) (len : Nat) (algo : Algo) (st : List Nat) :
+    (asrR t m len algo st).map (·.steps) = (asr t m len algo).map (·.steps) := by
+  unfold asrR asr
+  by_cases ha : (algo == Algo.none) = true
+  · simp [ha]
+  · by_cases hm : (!((lookedUp t).all fun n => (lookup m n).isSome)) = true
+    · simp [ha, hm]
+    · simp only [ha, hm, if_false, Bool.false_eq_true]
+      by_cases h1 : (t.kids.length == 1) = true
+      · by_cases h2 : (rootTipFixedInRepo && tipRooted t) = true
+        · simp [h1, h2, runChar, runCharAtNeighbour, List.map_map, Function.comp_def]
+        · simp [h1, h2, runChar, runCharRootTipPinned, List.map_map, Function.comp_def]
+      · simp [h1, runChar, List.map_map, Function.comp_def]
+
+/-- the same for ParsimonyAcr: the steps of a run with random resolution are those of the run without -/
+theorem acr_random_steps (t : T) (m : List (String × String)) (algo : Algo) (st : List Nat) :
+    (acrR t m algo st).map (·.steps) = (acr t m algo).map (·.steps) := by
+  unfold acrR acr
+  by_cases hm : (!((lookedUp t).all fun n => (lookup m n).isSome)) = true
+  · simp [hm]
+  · simp only [hm, if_false, Bool.false_eq_true, Option.map_some]
+    congr 1
+    unfold runCharR runChar
+    by_cases h1 : (t.kids.length == 1) = true
+    · by_cases h2 : (rootTipFixedInRepo && tipRooted t) = true
+      · simp [h1, h2, runCharAtNeighbour]
+      · simp [h1, h2, runCharRootTipPinned]
+    · simp [h1]
+
+/- ## The text left on the tree (Model/C12Fmt.lean: assignStatesToTree, assignSequencesToTree) and the driver's readers -/
+
+/-- ★ `assignSequencesToTree`, model level: for an alphabet of one-character names without braces, the comment
+    written for a node whose sites hold the slices `vs` is read back by the driver's reader as exactly the
+    per-site state names of the model — any number of sites, any slices (the empty set is written `*`). -/
+theorem asr_comment_roundtrip (chars : List Char) (hb : noBrace chars) (vs : List Vec) :
+    readSeqSets (asrComment (vs.map (stateNames (chars.map String.singleton)))) =
+      some (vs.map (stateNames (chars.map String.singleton))) := by
+  -- every site: a non-empty list of one-character names without brace
+  have key : ∀ v ∈ vs, ∃ cs : List Char, stateNames (chars.map String.singleton) v = cs.map String.singleton ∧
+      cs ≠ [] ∧ noBrace cs := by
+    intro v _
+    obtain ⟨cs, h1, h2⟩ := singles_of (fun c => c ≠ '{' ∧ c ≠ '}') (stateNames (chars.map String.singleton) v) (by
+      intro n hn
+      rcases stateNames_mem _ _ n hn with e | e
+      · exact ⟨'*', by rw [e]; decide, by decide⟩
+      · obtain ⟨c, hc, rfl⟩ := List.mem_map.mp e
+        exact ⟨c, rfl, hb c hc⟩)
+    refine ⟨cs, h1, ?_, h2⟩
+    intro e; subst e
+    exact stateNames_ne_nil _ v (by simpa using h1)
+  -- collect the characters site by site
+  have : ∃ sites : List (List Char), vs.map (stateNames (chars.map String.singleton)) = sites.map (·.map String.singleton) ∧
+      ∀ s ∈ sites, s ≠ [] ∧ noBrace s := by
+    clear hb
+    induction vs with
+    | nil => exact ⟨[], rfl, by simp⟩
+    | cons v r ih =>
+      obtain ⟨cs, h1, h2, h3⟩ := key v (by simp)
+      obtain ⟨sites, hs, hall⟩ := ih (fun x hx => key x (by simp [hx]))
+      exact ⟨cs :: sites, by simp [h1, hs], by
+        intro s hs'
+        rcases List.mem_cons.mp hs' with e | e
+        · exact e ▸ ⟨h2, h3⟩
+        · exact hall s e⟩
+  obtain ⟨sites, hs, hall⟩ := this
+  rw [hs]
+  have hc : (sites.map (·.map String.singleton)).map (fun names => names.flatMap String.toList) = sites := by
+    simp [List.map_map, Function.comp_def, flatMap_singletons]
+  simp only [readSeqSets, asrComment, hc, String.toList_ofList, readSeqChars_render sites hall, List.reverse_nil,
+    List.nil_append, Option.map_some]
+
+/-- the two alphabets of ParsimonyAsr hold no brace: the hypothesis of `asr_comment_roundtrip` for the code's alphabets -/
+theorem asr_alphabets_no_brace :
+    asrAlphabet = ['A', 'C', 'G', 'T', '-', '*'].map String.singleton ∧ aaAlphabet = aaChars.map String.singleton ∧
+    (['A', 'C', 'G', 'T', '-', '*'].all fun c => c != '{' && c != '}') = true ∧
+    (aaChars.all fun c => c != '{' && c != '}') = true := by decide
+
+/-- ★ `assignStatesToTree`, model level: the comment written for state names without `|` is read back as those names
+    (in the order written); `*` stands for the empty set. -/
+theorem acr_comment_roundtrip (names : List String) (hne : names ≠ []) (h : ∀ n ∈ names, noSep '|' n.toList) :
+    readAcrComment (acrComment names) = names := by
+  simp only [readAcrComment, acrComment, acrCommentChars, String.toList_ofList]
+  rw [splitChars_join '|' (names.map String.toList) (by simpa using hne) (by
+    intro n hn
+    obtain ⟨m, hm, rfl⟩ := List.mem_map.mp hn
+    exact h m hm)]
+  simp [List.map_map, Function.comp_def]
+
+example : acrComment ["A", "s10"] = "A|s10" ∧ readAcrComment "A|s10" = ["A", "s10"] ∧
+    asrComment [["A"], ["A", "G"], ["*"]] = "A{AG}*" ∧ readSeqSets "A{AG}*" = some [["A"], ["A", "G"], ["*"]] ∧
+    asrCommentsAfter ["old"] [["T"]] = ["old", "T"] ∧ acrCommentsAfter ["old"] ["B"] = ["B"] := by decide
+
+/- ## The table regenerated from the source (Gotree/Gen/C12Sites.lean, written by harness/c12/extract.go on every
+   run) against the facts the model is written from (Lemmas/C12Sites.lean).  When one of these decisions fails the
+   check reports the theorem as broken and still runs the oracle on the code's output to look for a failing input. -/
+
+/-- the integers behind ALGO_DELTRAN … ALGO_NONE in both packages are the ones the harness passes -/
+theorem algoConstsCheck : Gen.C12.algoConsts = expectedConsts := by decide
+
+/-- the `switch algo` of ParsimonyAcr and ParsimonyAsr, case by case -/
+theorem dispatchCheck : Gen.C12.dispatch = expectedDispatch := by decide
+
+/-- ★ read off the regenerated table, the passes each constant selects ARE the model's `runAlgo` (ASR: no case
+    for ALGO_NONE, the default clause is an error); the only pass that is never random is DELTRAN's down-pass -/
+theorem dispatch_runAlgo (k : Nat) (tv : String → Vec) (t : T) (algo : Algo) :
+    interp Gen.C12.dispatch "acr" (algoConst algo) k tv t = some (runAlgo k tv algo t) ∧
+    interp Gen.C12.dispatch "asr" (algoConst algo) k tv t = (if algo = .none then none else some (runAlgo k tv algo t)) ∧
+    neverRandom Gen.C12.dispatch = [("acr", "ALGO_DELTRAN", "parsimonyDOWNPASS"), ("asr", "ALGO_DELTRAN", "parsimonyDOWNPASS")] := by
+  rw [dispatchCheck]
+  cases algo <;> refine ⟨?_, ?_, ?_⟩ <;> first | rfl | decide
+
+/-- selection predicates, stored constants and counters of every pass function, in source order -/
+theorem skeletonCheck : Gen.C12.skeleton = expectedSkeleton ∧ Gen.C12.entry = expectedEntry := by decide
+
+/-- cmd/acr.go, cmd/asr.go: `--algo` literals → constants agree with `cliAlgoL`, compared after `strings.ToLower`;
+    what the default clause does (acr: logs and returns nil; asr: sets err); flag defaults; the library call -/
+theorem cliCheck :
+    cliAlgosOk Gen.C12.cliAlgos Gen.C12.flagDefaults = true ∧
+    Gen.C12.cliTag = [("acr", "strings.ToLower(parsimonyAlgo)"), ("asr", "strings.ToLower(parsimonyAlgo)")] ∧
+    Gen.C12.cliDefault = expectedCliDefault ∧ Gen.C12.flagDefaults = expectedFlagDefaults ∧
+    Gen.C12.cliCalls = expectedCliCalls := by decide
+
+set_option maxRecDepth 100000 in
+/-- the model's `iupac` is `align.IupacCode` read through the alphabet of ParsimonyAsr, on all 256 bytes -/
+theorem iupacCheck :
+    ((List.range 256).all fun b => iupac (Char.ofNat b) == genIupac b) = true ∧
+    asrAlphabet = (genAlphabet Gen.C12.nucAlphabet).map (fun b => String.singleton (Char.ofNat b)) := by decide
+
+set_option maxRecDepth 100000 in
+/-- the model's `aaCodes` is the protein branch of the up-pass (ALL_AMINO expanded), on all 256 bytes -/
+theorem aaCodesCheck :
+    ((List.range 256).all fun b => aaCodes (Char.ofNat b) == genAaCodes b) = true ∧
+    aaChars = (genAlphabet Gen.C12.aminoAlphabet).map Char.ofNat := by decide
 
 end Gotree.C12
